@@ -307,21 +307,45 @@ def check_geometry(ctx, prog):
                 ctx.check(pot(v - skip), 'C02.geometry', f['pq'], role, fwhere(f), 'initial size %d = 2^k + %d' % (v, skip),
                           'initial bucket-array size %d - SKIP(%d) = %d is not a power of two: the mask in binOf() cannot reach every bucket / collides keys' % (v, skip, v - skip))
             else:
-                s_ = strip(sz)
-                okk = s_.get('k') == 'bin' and s_.get('op') == '+' and const_val(s_['y']) == skip and strip(s_['x']).get('k') == 'call' and (strip(s_['x']).get('pq') or '').endswith('nextPoT')
-                ctx.check(okk, 'C02.geometry', f['pq'], role, fwhere(f), 'size = nextPoT(n) + SKIP', 'bucket-array size `%s` is not nextPoT(n) + SKIP' % pe(sz))
+                # evaluated for a range of requested sizes: (size - SKIP) must be a power of two that holds the request
+                badn = None
+                try:
+                    for nreq in (0, 1, 2, 3, 5, 8, 9, 100, 255, 256, 257, 1000, 4096, 70000):
+                        env = dict((p_['id'], nreq) for p_ in f['params'] if T(f, p_['t']).get('int'))
+                        got = bytesets.Evaluator(prog, f, env).ev(q.expand(f, sz))
+                        ctx.evaluations += 1
+                        if not pot(got - skip) or got - skip < 1:
+                            badn = (nreq, got)
+                            break
+                    ctx.check(badn is None, 'C02.geometry', f['pq'], role, fwhere(f), 'size - SKIP is a power of two for every requested size of the grid',
+                              'for a requested size of %s the bucket array gets %s entries: %s - SKIP(%d) is not a power of two, the mask in binOf() cannot reach every bucket / collides keys' % (
+                                  badn[0] if badn else '', badn[1] if badn else '', badn[1] if badn else '', skip))
+                except bytesets.Undecidable as ex:
+                    ctx.undecided('C02.geometry', f['pq'], role, fwhere(f), 'bucket-array size `%s` not evaluable: %s' % (pe(sz), ex))
             ctx.evaluations += 1
     # nextPoT: n--, smear with shifts 1,2,4,8,16, return n + 1
     for f in prog.fn('asl::nextPoT'):
         n += 1
         ctx.analysed(f)
-        shifts = sorted(const_val(w['y']) for w in fn_exprs(f) if w.get('k') == 'bin' and w.get('op') == '>>' and const_val(w['y']) is not None)
-        ors = [w for w in fn_exprs(f) if w.get('k') == 'bin' and w.get('op') == '|=']
-        dec = [w for w in fn_exprs(f) if w.get('k') == 'un' and w.get('op') in ('post--', 'pre--')]
-        rets = [s_ for s_ in ir.walk_stmts(f['body']) if s_.get('k') == 'return']
-        rv = strip(rets[0]['e']) if rets else {}
-        okk = shifts == [1, 2, 4, 8, 16] and len(ors) == 5 and len(dec) == 1 and rv.get('k') == 'bin' and rv.get('op') == '+' and const_val(rv['y']) == 1
-        ctx.check(okk, 'C02.geometry', f['pq'], 'nextPoT:bit smearing', fwhere(f), 'n-1 smeared by 1,2,4,8,16 then +1', 'nextPoT is not the 32-bit round-up-to-power-of-two (shifts %s)' % shifts)
+        # interpreted (scansim) for arguments around every power of two up to 2^30: the smallest power of two >= n
+        import scansim
+        badp = None
+        try:
+            args = set([1, 2, 3, 5, 100, 1000, 70000])
+            for k in range(1, 31):
+                args |= {(1 << k) - 1, 1 << k, (1 << k) + 1}
+            for a_ in sorted(x for x in args if 1 <= x <= (1 << 30)):
+                r = scansim.Run(prog, f, {}, int_params={f['params'][0]['id']: a_})
+                got = r.run()
+                want = 1 << (a_ - 1).bit_length()
+                ctx.evaluations += 1
+                if got != want:
+                    badp = (a_, got, want)
+                    break
+            ctx.check(badp is None, 'C02.geometry', f['pq'], 'nextPoT:bit smearing', fwhere(f), 'interpreted for %d arguments around every power of two: smallest power of two >= n' % len(args),
+                      'nextPoT(%s) is %s, the smallest power of two not below it is %s' % (badp if badp else (0, 0, 0)))
+        except (scansim.Unsupported, scansim.OOB, TypeError) as ex:
+            ctx.undecided('C02.geometry', f['pq'], 'nextPoT:bit smearing', fwhere(f), 'outside the interpreted fragment: %s' % ex)
     # rehash growth factor and mask: evaluated for several old table lengths L (a.length() bound to L, the new table's
     # length() bound to the evaluated size), so hoisted locals and equivalent arithmetic forms are read through
     for f in hm_members(prog, 'rehash'):
